@@ -116,16 +116,18 @@ var pops = map[byte]int{
 // case
 
 type kase struct {
-	Fam   string `json:"fam"`
-	Op    string `json:"op"`              // opcode under test (signature component)
-	Class string `json:"class,omitempty"` // boundary class of the operands (signature component)
-	Desc  string `json:"desc"`
-	Table string `json:"table"` // new = all forks on (PUSH0, MCOPY, gas x30) | old = proposals 022/026 off
-	Code  string `json:"code"`  // the complete deployed code (program + observation epilogue)
-	Input string `json:"input,omitempty"`
-	Probe int    `json:"epilogue_at"`
-	Sig   string `json:"sig,omitempty"`
-	Ctx   string `json:"context,omitempty"` // static | wrap1 | wrap2: the frame is read-only
+	Fam    string `json:"fam"`
+	Op     string `json:"op"`              // opcode under test (signature component)
+	Class  string `json:"class,omitempty"` // boundary class of the operands (signature component)
+	Desc   string `json:"desc"`
+	Table  string `json:"table"` // new = all forks on (PUSH0, MCOPY, gas x30) | old = proposals 022/026 off
+	Code   string `json:"code"`  // the complete deployed code (program + observation epilogue)
+	Input  string `json:"input,omitempty"`
+	Probe  int    `json:"epilogue_at"`
+	Sig    string `json:"sig,omitempty"`
+	Ctx    string `json:"context,omitempty"` // static | wrap1 | wrap2: the frame is read-only
+	Height uint64 `json:"height,omitempty"`  // fork-gate family: EVM block height, with Gate active from block 1000
+	Gate   string `json:"gate,omitempty"`
 }
 
 // spec is a case before assembly.
@@ -1215,6 +1217,7 @@ func run(c *fw.Ctx) {
 	g.famMemory()
 	g.famStack()
 	g.famContextTable()
+	g.famForkGate()
 	g.famAlias()
 	g.famSequence()
 	g.famJump()
@@ -1256,6 +1259,10 @@ func replay(c *fw.Ctx, raw json.RawMessage) {
 	if err != nil {
 		fmt.Fprintln(os.Stderr, err)
 		os.Exit(2)
+	}
+	if k.Fam == "fork-gate" {
+		g.famForkGate() // ~20 executions: re-judges every gated opcode at F-1, F, F+1
+		return
 	}
 	if k.Fam == "context-table" {
 		g.famContextTable() // the whole table is ~150 executions; re-judges every opcode including the recorded one
